@@ -197,6 +197,33 @@ func code(node, kc int) int64 { return int64(node)*16 + int64(kc) }
 
 func mixv(v, cd, c int64) int64 { return (v*31 + cd*7 + c*13 + 1) % prime }
 
+// csEmpty: one pre-handler in seven returns the EMPTY value - the nil map, the zero value of the node's
+// value type (Model/StateLock.v cs_empty): what a handler returns is what the node / its successors
+// receive also when it is the zero value. A post-handler does so (one in five) only for node ids in the
+// upper half of a block of 1000 (hiBand): the generator gives such ids to some graphs that are not
+// Workflows - the Workflow graphs built here map the output keys of every node by name, so an empty
+// output is a legitimate field-mapping failure there. Not the ProcessState callbacks, whose values
+// never pass through eino.
+const hiBand = 500
+
+func csEmpty(kc, node int, c int64) bool {
+	switch kc {
+	case kPre:
+		return (int64(node)*5+c*3)%7 == 0
+	case kPost:
+		return node%stride >= hiBand && (int64(node)*3+c)%5 == 0
+	}
+	return false
+}
+
+// toMH: the value a state handler returns (the nil map for the empty value)
+func toMH(x []KV) M {
+	if len(x) == 0 {
+		return nil
+	}
+	return toM(x)
+}
+
 func leafOut(id int, x []KV) []KV {
 	var a int64
 	for _, kv := range x {
@@ -433,6 +460,9 @@ func (h *rec) cs(ctx context.Context, node, kc int, x []KV, s *St, is2 bool) []K
 	out := make([]KV, len(x))
 	for i, kv := range x {
 		out[i] = KV{kv.K, mixv(kv.V, cd, c)}
+	}
+	if csEmpty(kc, node, c) {
+		out = []KV{}
 	}
 	h.yield()
 	s.Total = c + 1
@@ -795,7 +825,7 @@ func handlerOpts[S any](h *rec, n NodeSpec, pre bool) compose.GraphAddNodeOpt {
 			if err != nil {
 				return nil, err
 			}
-			return schema.StreamReaderFromArray([]M{toM(h.cs(ctx, id, kc, fromM(m), asSt(s), isSt2(s)))}), fail
+			return schema.StreamReaderFromArray([]M{toMH(h.cs(ctx, id, kc, fromM(m), asSt(s), isSt2(s)))}), fail
 		}
 		if pre {
 			return compose.WithStreamStatePreHandler(f)
@@ -803,7 +833,7 @@ func handlerOpts[S any](h *rec, n NodeSpec, pre bool) compose.GraphAddNodeOpt {
 		return compose.WithStreamStatePostHandler(f)
 	}
 	f := func(ctx context.Context, in M, s S) (M, error) {
-		return toM(h.cs(ctx, id, kc, fromM(in), asSt(s), isSt2(s))), fail
+		return toMH(h.cs(ctx, id, kc, fromM(in), asSt(s), isSt2(s))), fail
 	}
 	if pre {
 		return compose.WithStatePreHandler(f)
@@ -1672,6 +1702,23 @@ func (c *Case) nontrivial(o *Obs) bool {
 
 func (c *Case) tags(o *Obs) []string {
 	t := []string{"mode:" + c.Forest[0].Mode, fmt.Sprintf("graphs:%d", len(c.Forest)), fmt.Sprintf("runs:%d", c.Runs)}
+	emptyPre, emptyPost := false, false
+	for _, e := range o.Events {
+		if len(e.Out) == 0 && len(e.In) > 0 {
+			switch e.KC {
+			case kPre:
+				emptyPre = true
+			case kPost:
+				emptyPost = true
+			}
+		}
+	}
+	if emptyPre {
+		t = append(t, "empty-result:pre-handler")
+	}
+	if emptyPost {
+		t = append(t, "empty-result:post-handler")
+	}
 	total, maxw := 0, 0
 	for _, g := range c.Forest {
 		total += len(g.Nodes)
